@@ -172,6 +172,11 @@ def run(ctx, rep):
                 for s in b.blocks[bi]['st']:
                     if s['k'] == 'assign' and s['rv']['k'] == 'agg' and s['rv'].get('vn') == 'Ok' and s['rv']['ops']:
                         okdeps |= dp.of_operand(s['rv']['ops'][0], (bi, 10 ** 6))
+            if not okdeps:
+                # the Result of the primitive is returned as a whole (map_err, `?`-less tail expression)
+                for rbi in b.reachable():
+                    if b.blocks[rbi]['term']['k'] == 'return':
+                        okdeps |= dp.of_place({'l': 0, 'p': []}, (rbi, 10 ** 6))
             derives = any(x[0] == 'fn' and any(x[1].endswith(p) for p in READ_PRIMS) for x in okdeps)
             rep.ob('C19.R', '%s::read_to count provenance' % name, derives, 'Ok value depends on %s' % sorted(
                 x[1].split('::')[-1] for x in okdeps if x[0] == 'fn')[:6])
